@@ -89,6 +89,13 @@ def _build(lw, name, initial):
     import robotools
 
     if lw["kind"] == "trough":
+        if (lw["virtual_rows"] + lw["columns"]) % 3 == 0:
+            # the still-supported legacy construction of a trough (a Labware with virtual rows that is
+            # not an instance of Trough) - one third of the trough geometries, deterministically
+            return robotools.Labware(
+                name, 1, lw["columns"], min_volume=0, max_volume=10_000_000, initial_volumes=initial,
+                virtual_rows=lw["virtual_rows"],
+            )
         return robotools.Trough(
             name, lw["virtual_rows"], lw["columns"], min_volume=0, max_volume=10_000_000, initial_volumes=initial
         )
